@@ -389,7 +389,7 @@ void sha256_final(sha256_ctx *ctx, unsigned char *digest)
 {
     unsigned int block_nb;
     unsigned int pm_len;
-    unsigned int len_b;
+    uint64 len_b;
 
 #ifndef UNROLL_LOOPS
     int i;
@@ -403,7 +403,7 @@ void sha256_final(sha256_ctx *ctx, unsigned char *digest)
 
     memset(ctx->block + ctx->len, 0, pm_len - ctx->len);
     ctx->block[ctx->len] = 0x80;
-    UNPACK32(len_b, ctx->block + pm_len - 4);
+    UNPACK64(len_b, ctx->block + pm_len - 8);
 
     sha256_transf(ctx, ctx->block, block_nb);
 
@@ -586,7 +586,7 @@ void sha512_final(sha512_ctx *ctx, unsigned char *digest)
 {
     unsigned int block_nb;
     unsigned int pm_len;
-    unsigned int len_b;
+    uint64 len_b;
 
 #ifndef UNROLL_LOOPS
     int i;
@@ -600,7 +600,7 @@ void sha512_final(sha512_ctx *ctx, unsigned char *digest)
 
     memset(ctx->block + ctx->len, 0, pm_len - ctx->len);
     ctx->block[ctx->len] = 0x80;
-    UNPACK32(len_b, ctx->block + pm_len - 4);
+    UNPACK64(len_b, ctx->block + pm_len - 8);
 
     sha512_transf(ctx, ctx->block, block_nb);
 
@@ -688,7 +688,7 @@ void sha384_final(sha384_ctx *ctx, unsigned char *digest)
 {
     unsigned int block_nb;
     unsigned int pm_len;
-    unsigned int len_b;
+    uint64 len_b;
 
 #ifndef UNROLL_LOOPS
     int i;
@@ -702,7 +702,7 @@ void sha384_final(sha384_ctx *ctx, unsigned char *digest)
 
     memset(ctx->block + ctx->len, 0, pm_len - ctx->len);
     ctx->block[ctx->len] = 0x80;
-    UNPACK32(len_b, ctx->block + pm_len - 4);
+    UNPACK64(len_b, ctx->block + pm_len - 8);
 
     sha512_transf(ctx, ctx->block, block_nb);
 
@@ -788,7 +788,7 @@ void sha224_final(sha224_ctx *ctx, unsigned char *digest)
 {
     unsigned int block_nb;
     unsigned int pm_len;
-    unsigned int len_b;
+    uint64 len_b;
 
 #ifndef UNROLL_LOOPS
     int i;
@@ -802,7 +802,7 @@ void sha224_final(sha224_ctx *ctx, unsigned char *digest)
 
     memset(ctx->block + ctx->len, 0, pm_len - ctx->len);
     ctx->block[ctx->len] = 0x80;
-    UNPACK32(len_b, ctx->block + pm_len - 4);
+    UNPACK64(len_b, ctx->block + pm_len - 8);
 
     sha256_transf(ctx, ctx->block, block_nb);
 
